@@ -138,6 +138,10 @@ func init() {
 	for _, id := range []string{"C01", "C02", "C10", "C12"} {
 		addRules(id, "R-DESCENT")
 	}
+	reg("R-MERGE-KEEPACTIVE", "Every os.Remove in the per-segment loop of Merge is dominated by the not-equal edge of a comparison of the scanned segment id with DB.ActiveFile.fileID (directly or through a predicate helper): the segment that is still the active file is never unlinked.", ruleMergeKeepActive)
+	for _, id := range []string{"C15", "C10", "C11"} {
+		addRules(id, "R-MERGE-KEEPACTIVE")
+	}
 	reg("R-MEMBER-NEG", "The membership predicates of ds/set (methods of *Set whose first result is a bool) return false only on a path on which one of their map lookups missed or the looked-up map is empty.", ruleMemberNeg)
 	addRules("C06", "R-MEMBER-NEG")
 	addRules("C16", "R-MERGE-PRESERVE")
